@@ -764,3 +764,20 @@ func zzH_C19_block_sync_one_peer(t *zzT) {
 	}
 	zz19BlockSync(t, L, c, k, peerMhp, second, nv, f)
 }
+
+
+// C03 "only fully valid blocks extend the chain" for blocks that arrive through fast sync: every downloaded
+// block — including the one whose ID equals the announced block that triggered the sync — goes through the
+// static validity rules before it reaches the processor (same obligation as zzH_C19_fast_sync_apply; seed
+// C03-8 skipped Block.Validate for the downloaded block carrying the announced header ID).
+//
+//zz:opt loop=400 paths=200000
+//zz:opt require=invalid_block,restored,restored_two_or_more,rejected_on_pure_extension,switched
+//zz:stub ~/pkg/consensus/sync.requestHighestCommonBlock zz19StubCommon
+//zz:stub ~/pkg/consensus/sync.requestBlocksFromID zz19StubBlocks
+//zz:stub (*~/pkg/p2p.Connection).BanPeer zz19StubBan
+//zz:stub go.uber.org/ratelimit.New zz19StubLimiter
+//zz:stub context.WithCancel zz19StubWithCancel
+//zz:quick L=4 V=2 K=3 F=0
+//zz:thorough L=6 V=3 K=4 F=2
+func zzH_C03_synced_blocks_validated(t *zzT) { zzH_C19_fast_sync_apply(t) }
